@@ -124,3 +124,8 @@ package tss
 //@ trusted
 //@ func (cs ComplaintSignature) Validate
 //@ trusted
+
+// C04: a list of encrypted shares is valid only if EVERY element is (48 bytes each)
+//@ func (es EncSecretShares) Validate
+//@ ensures err == nil ==> (forall j :: 0 <= j && j < len(es) ==> len(es[j]) == 48)
+//@ loop 0: invariant err == nil && (forall j :: 0 <= j && j < #i ==> len(es[j]) == 48)
